@@ -18,7 +18,7 @@ from . import c05
 from .c07 import corrupt
 
 PROP = "C18"
-RUNS = {"quick": 3000, "thorough": 250000}
+RUNS = {"quick": 6000, "thorough": 400000}
 WALL = {"quick": 280, "thorough": 3500}
 RULE = ("one run = one of three arms on four replicas (vlevel 0-3); distinct = distinct (arm, op, "
         "outcome vector) tuples x state digest")
@@ -96,8 +96,18 @@ def run_history(scn, st):
     hdr = sum(1 for op in scn["ops"] if op["op"] == "add" and op["line"].startswith("H\txx:"))
     if hdr >= 3:
         st.count("probe.repeated_header_tag")
+    from ..model import Doc
+    m = Doc(version)
     for n, op in enumerate(scn["ops"]):
         outs = []
+        if op["op"] not in ("new",):
+            # the text model only tells where the history leaves the specified ground
+            if op["op"] == "add" and op["line"].startswith("H\txx:"):
+                pass
+            else:
+                c05.model_apply(m, op, core.Stats())
+            if m.unspecified:
+                return
         for lvl, w in enumerate(ws):
             if op["op"] == "new":
                 outs.append(w.apply(dict(op, vlevel=lvl)))
@@ -124,6 +134,7 @@ def run_history(scn, st):
             except Exception as e:
                 texts.append(["<%s>" % type(e).__name__])
         st.count("oracle.same_text")
+        st.state(digest(["history-text", texts[0]]))
         for lvl in (1, 2, 3):
             if texts[lvl] != texts[0]:
                 a = [x for x in texts[0] if x not in texts[lvl]]
@@ -201,7 +212,7 @@ def run_assign(scn, st):
                 return
             a = core.call(line.set, tag, x)
             st.count("oracle.surfacing")
-            st.state(digest(["assign", dt, repr(x), lvl, a.ok]))
+            st.state(digest(["assign", dt, repr(x), lvl, a.ok, line.record_type, op["connected"]]))
             if valid:
                 if not a.ok:
                     raise core.Violation("valid-assignment-rejected",
